@@ -10,6 +10,11 @@ Three parts, every generated case goes through all of them:
     line, column) of emmet.expand is compared with the extracted Coq model (coq/model/FormatIndent.v on top of
     the markup pipeline model).
   THEOREMS: coq/props/C15.v.
+  LAYERS (stream C15layers): the same oracle with the indent string given through the layers of a configuration (call
+    options, global entry of the type `markup`, global entry of the syntax), expand(abbr, config, global_config) and
+    expand(abbr, Config(config, global_config)); the precedence is restated in this file (effective_config).
+  REPLAYS: a reported input is re-run in a fresh process; when it fails only after earlier calls of the stream, those
+    calls are stored with it (settle_replays) and replay() performs them first.
 """
 import json
 import os
